@@ -153,6 +153,10 @@ def gen(seed, tier):
             ty = rng.choice(["f64p", "f32p"] if op == "spacing" else ["f64p", "f32p", "i32", "i64"])
             es = [rng.randrange(20) for _ in range(n)] if ty.endswith("p") else [rng.randint(-9, 9) for _ in range(n)]
             out.append(f"ew1@{ty} s{hexs(op)} {arr(sh, es)}")
+    # every pool value through every function (judged against the independent reference)
+    for op in UNARY:
+        for ty in ("f64p", "f32p"):
+            out.append(f"ew1@{ty} s{hexs(op)} {arr([30], list(range(30)))}")
     for op in ZUNARY:
         for sh in sh3[::2]:
             es = [rng.randint(-50, 50) for _ in range(prod(sh))]
